@@ -137,6 +137,7 @@ func (l *Loader) loadWithContent(path, content string, visited map[string]bool) 
 	}
 
 	result := NewResolvedJournal(journal)
+	result.PrimaryPath = path
 	visited[path] = true
 
 	for _, inc := range journal.Includes {
